@@ -312,7 +312,13 @@ parser! {
     // 1.2.3.2 Time of day and date
     rule time_of_day() -> TimeOfDayLiteral = tok(TokenType::TimeOfDay) tok(TokenType::Hash) d:daytime() { TimeOfDayLiteral::new(d) }
     rule daytime() -> Time = h:day_hour() tok(TokenType::Colon) m:day_minute() tok(TokenType::Colon) s:day_second() {?
-      Time::from_hms(h.try_into().map_err(|e| "hour")?, m.try_into().map_err(|e| "min")?, s.whole as u8).map_err(|e| "time")
+      // The seconds must fit the type (rather than wrap) and the fraction of the second is part of the value.
+      let whole_seconds = u8::try_from(s.whole).map_err(|e| "sec")?;
+      if s.femptos % 1_000_000 != 0 {
+        return Err("time of day is more precise than one nanosecond");
+      }
+      let nanoseconds = (s.femptos / 1_000_000) as u32;
+      Time::from_hms_nano(h.try_into().map_err(|e| "hour")?, m.try_into().map_err(|e| "min")?, whole_seconds, nanoseconds).map_err(|e| "time")
     }
     rule day_hour() -> Integer = integer()
     rule day_minute() -> Integer = integer()
